@@ -48,6 +48,17 @@ class CallGraph:
                 for sub in repo.subclasses(f.cls, strict=True):
                     if expr.attr in sub.methods and sub.methods[expr.attr] not in out:
                         out.append(sub.methods[expr.attr])
+                # the receiver is an instance of a class that is actually constructed: an implementation that no
+                # constructed class inherits (the abstract default of a base class) is not a callee
+                live = [c for c in repo.subclasses(f.cls) if c in repo.instantiated()]
+                if live and len(out) > 1:
+                    reach = []
+                    for c in live:
+                        mm = repo.lookup_method(c, expr.attr)
+                        if mm is not None and mm not in reach:
+                            reach.append(mm)
+                    if reach:
+                        out = [x for x in out if x in reach]
                 return out
             # Class.method(self, ...) style
             if isinstance(expr.value, ast.Name):
